@@ -67,6 +67,9 @@ MENU = [
     ("t append= 1", "mut", "t", []), ("t ++= [1]", "mut", "t", []), ("t[5] = 7", "mut", "t", []), ("t[6] += 1", "mut", "t", []),
     ("e[1] append= 5", "mut", "e", ["k0"]), ("e[1] ++= [1]", "mut", "e", ["k0"]), ("e[1][2] = 7", "mut", "e", ["k0"]), ("e[1][3] += 1", "mut", "e", ["k0"]),
     ("pop e[1]", "mut", "e", ["k0"]), ("g[1] append= 5", "mut", "g", ["k0"]), ("g[1][2] = 7", "mut", "g", ["k0"]), ("g[2] append= 1", "mut", "g", ["k1"]),
+    # the dict / set operators named in the property, swaps and tuple assignments into indexed targets (two index-assignments each)
+    ("d |.= 7", "mut", "d", []), ("d |..= [8, 9]", "mut", "d", []), ("d -.= 5", "mut", "d", []), ("d ||= {7: 7}", "mut", "d", []), ("remove d[5]", "mut", "d", []),
+    ("swap a[0], a[1]", "mut", "a", []), ("swap m[1][0], m[1][1]", "mut", "m", [1]), ("a[0], a[1] = 1, 2", "mut", "a", []),
     ("b[0] = 1", "mut", "b", []), ("b[1][1] = 1", "mut", "b", [1]), ("c[0][0] = 1", "mut", "c", [0]), ("b[fld][0] = 1", "mut", "b", ["f0"]),
     ("b = a", "share", None, None), ("b = m", "share", None, None), ("b = m[1]", "share", None, None), ("b = d", "share", None, None),
     ("b = q", "share", None, None), ("b = v", "share", None, None), ("b = y", "share", None, None), ("b = s", "share", None, None),
@@ -246,6 +249,12 @@ LOOPS = [
     ("dict-op", "x := dict((0 til {n}) map (\\i -> [i, i]))", "for (i <- 0 til {k}) x[i % {n}] += 1"),
     ("dict-set", "x := dict((0 til {n}) map (\\i -> [i, i]))", "for (i <- 0 til {k}) x[i % {n}] = i"),
     ("dict-add-key", "x := {{}}", "for (i <- 0 til {k}) x |.= i"),
+    ("dict-add-key-grown", "x := dict((0 til {n}) map (\\i -> [i, i]))", "for (i <- 0 til {k}) x |.= {n} + i"),
+    ("dict-add-pair", "x := dict((0 til {n}) map (\\i -> [i, i]))", "for (i <- 0 til {k}) x |..= [{n} + i, i]"),
+    ("dict-merge-small", "x := dict((0 til {n}) map (\\i -> [i, i]))", "for (i <- 0 til {k}) x ||= {{i: 0}}"),
+    ("dict-remove-key", "x := dict((0 til {n}) map (\\i -> [i, i]))", "for (i <- 0 til {k}) x -.= i"),
+    ("list-swap", "x := list(1 to {n})", "for (i <- 0 til {k}) swap x[0], x[i % {n}]"),
+    ("list-tuple-assign", "x := list(1 to {n})", "for (i <- 0 til {k}) x[0], x[i % {n}] = i, i"),
     ("rows", "x := (1 to 8) map (\\r -> list(1 to {n}))", "for (i <- 0 til {k}) x[i % 8][i % {n}] = i"),
     ("row-append", "x := [[], list(1 to {n})]", "for (i <- 0 til {k}) x[1] append= i"),
     ("vector", "x := vector(list(1 to {n}))", "for (i <- 0 til {k}) x[i % {n}] = i"),
